@@ -420,3 +420,26 @@ prop("C19",
      level_text="A leak needs a log statement on an exercised path that formats a structure holding a password: the check maximises exercised paths by reusing every other property's driver with sentinels configured, and scans all output. Statements on paths no driver reaches are not observed.",
      level_note="Trusted: logcap (it replaces log.StdLog, so every record of the tool's logger passes through the scanner). Not exercised: redis-shake/main (does not build), tencent/aliyun scanners, sentinel discovery, cluster targets, the HTTP server itself (its documents are built and scanned directly).",
      assumptions=["passwords are at least 6 characters (a 1-character password would match unrelated output)"])
+
+prop("C06",
+     title="Configured filters are honoured identically in every mode and phase",
+     timing=True,
+     quick=[{"re": "^TestC06$", "checks": 20000},
+            {"re": "^TestC06Paths$", "checks": 12, "shards": 4, "timeout": 600}],
+     thorough=[{"re": "^TestC06$", "checks": 2000000, "shards": 4, "timeout": 1700},
+               {"re": "^TestC06Paths$", "checks": 1500, "shards": 12, "timeout": 1700}],
+     rule="(predicates) filter configurations (db white|black list of numbers incl. 1/10/11, key white|black list of 1-3 prefixes from a small alphabet so that keys "
+          "are prefixes of / equal to / extend them, slot lists in any order, filter.lua) x keys (arbitrary bytes, hash-tag shaped, equal to / extending / one byte "
+          "short of the checkpoint prefix) x db numbers up to 200 x command names in any letter case: filter.FilterKey/FilterDB/FilterSlot/FilterCommands == "
+          "reference predicates written from the statement. (paths) a keyspace of 2-10 (db,key) pairs with 0-2 Lua scripts and a filter configuration is pushed "
+          "through the four real data paths against model targets: full sync (syncRDBFile on an RDB holding those keys), restore mode (restoreRDBFile), "
+          "incremental sync (SELECT/SET stream plus OPINFO/EVAL/SCRIPT through syncCommand) and rump (executor over a model source); the set of (db,key) that "
+          "arrived must equal {x | pass(path,x)}: db lists exact, blacklist excludes any listed prefix, whitelist passes only listed prefixes, slot list only "
+          "in full sync, checkpoint-prefixed keys excluded in full sync/restore always and elsewhere once a key filter is configured, scripts/script commands "
+          "excluded exactly when filter.lua is set, OPINFO never forwarded. Non-trivial: both outcomes present, a key extending a listed prefix, >=2 dbs. "
+          "Distinct = hash of (configuration, keyspace).",
+     technique="property-based testing (rapid): differential against reference filter predicates, and a cross-path consistency oracle (the same generated keyspace through four real data paths)",
+     level_text="Predicates are compared with a reference on tens of thousands of generated (configuration, key) pairs; path consistency is sampled (each case drives four real pipelines, ~2.5 s).",
+     level_note="Trusted: the reference predicates in filterref_test.go, harness/mredis. Per-path oracles of C03/C07/C16 check the same decisions on much larger samples; this check adds the cross-path comparison on one keyspace.",
+     assumptions=["at most one of whitelist/blacklist per kind (sanitiser post-condition)",
+                  "in rump and incremental sync checkpoint-prefixed keys are only excluded once a key filter is configured (as the statement says)"])
